@@ -79,7 +79,19 @@ EXC: Dict[str, type] = {
 }
 
 
+class LazyValue:
+    """an object a task may legitimately RETURN that happens to be awaitable (a deferred computation, a client's lazy call)."""
+
+    def __await__(self) -> Any:
+        AWAITED.append(1)
+        return iter(())
+
+
+AWAITED: List[int] = []
+
+
 OBJECTS: Dict[str, Any] = {
+    "awaitable": LazyValue(),
     "object": object(), "set": {1, 2}, "complex": 1j, "lambda": (lambda: 0), "bytes": b"\x00\xff",
     "tuple": (1, (2, 3)), "exception_instance": ValueError("as a value"), "type": dict, "nan": float("nan"),
 }
@@ -243,6 +255,8 @@ class RecordingBackend(AsyncResultBackend):
             await asyncio.sleep(self.lat)
         if k in self.fail or msg_index(task_id) in self.fail_ids:
             self.tr.add("save_failed", msg_index(task_id))
+            if self.fail_exc == "BadStrError":
+                raise BadStrError()            # an error of the backend's client library whose text cannot be built
             raise SAVE_EXC.get(self.fail_exc, RuntimeError)("backend down")
         self.store[task_id] = result
         self.tr.add("save_end", msg_index(task_id))
